@@ -8,6 +8,8 @@
 #   trxcon_rx/tx_structural  structural rules for trx_if.c (recorded as structural proofs)
 #   _group                   decision: semantic layer decides, structural proof recorded; fallback if not evaluable
 #   r5_carriage              C04.R5: member value ranges vs the quantities' domains; scheduler -> PHYIF -> trx_if.c hand-over evaluated
+#   r6_burst_storage         C04.R6: the storage the burst indication points into is not written before the delivery (calls made
+#                            before it followed through the direct-call graph back into the TRXD transmit path, evaluated there)
 
 import ast
 import json
@@ -42,10 +44,16 @@ EXPLANATION = (
     "structures and trx_if.c: the domain of every quantity (frame number, timeslot, attenuation, burst length, RSSI, "
     "ToA256, hard / soft bits) is included in the value range of each integer member that carries it (resolved member "
     "types of the clang AST), and trxcon_shim.c's scheduler -> PHYIF conversion and trxcon_main.c's hand-over to "
-    "trx_if.c are evaluated on request families with the integer conversions clang resolved at each store.")
+    "trx_if.c are evaluated on request families with the integer conversions clang resolved at each store. "
+    "A fifth group (C04.R6) decides that the soft bits are still in place when the burst indication is delivered: "
+    "trx_data_rx_cb() is evaluated with and without a model of the calls it makes before the delivery (each resolved "
+    "through the direct-call graph of trxcon's translation units; a chain that re-enters the TRXD transmit path of "
+    "trx_if.c is evaluated there on the same transceiver instance with an uplink burst due) and what is handed on "
+    "must not differ - a PDU buffer shared by both directions plus a transmission triggered before the delivery does.")
 ASSUMPTIONS = [
     "osmo_load32be/16be(p), osmo_store32be/16be(v, p): big-endian load/store at p; memcpy/memmove/memset as in ISO C; read/recv/recvfrom deliver min(datagram length, capacity) octets; send/sendto/write emit the given octets",
-    "external functions without a body in trx_if.c (logging, strerror_r, the rts indication) do not modify the local buffer or the burst indication",
+    "external functions without a body in trx_if.c (logging, strerror_r, the rts indication) do not modify the local buffer or the burst indication, except through a chain of direct calls back into trx_if.c's transmit path, which C04.R6 follows and evaluates",
+    "C04.R6: the RTS.ind of a transceiver instance is served by the trxcon instance that transmits on that same transceiver instance (trxcon->phyif / trx->priv as linked in trxcon_main.c); an uplink burst is assumed due for the frame",
     "a branch whose condition does not depend on the datagram (trx state) is skipped only if neither arm can touch local objects (no jump, stores only into objects reached through struct pointers / file-scope variables)",
     "the families are exhaustive per octet / per axis, not over the product of all axes; independence of the axes is what the structural proofs show when closed",
 ]
@@ -1787,8 +1795,15 @@ def r6_burst_storage(L, repo, spec, tier, tu):
             except _Goto as jmp:
                 raise AnalysisError("C evaluation: goto %s into a nested block" % jmp.label)
             except AnalysisError as e:
-                raise AnalysisError("trx_data_rx_cb: %s() is reached from the call of %s() made before the burst indication is delivered, but cannot be evaluated there (%s)" % (
-                    g, name, str(e)[:120]))
+                # not evaluable: undo what was evaluated of it; whether that matters is decided at the delivery (a local
+                # array of the callback cannot be reached from the instance / request the function is given)
+                for b_ in list(st.mem):
+                    if b_ in before:
+                        st.mem[b_][:] = before[b_]
+                    else:
+                        del st.mem[b_]
+                st.out.setdefault("re_failed", []).append((name, g, str(e)[:120]))
+                continue
             finally:
                 st.env = saved
                 st.depth -= 1
@@ -1820,7 +1835,13 @@ def r6_burst_storage(L, repo, spec, tier, tu):
         got = st.out.get("ind")
         if got is not None:
             got = ({k: v for k, v in got[0].items() if k != "burst"}, got[1], got[0].get("burst"))
-        return got, st.out.get("re") or []
+        return got, st.out.get("re") or [], st.out.get("re_failed") or []
+
+    def callback_local(base):
+        """a memory object of the evaluation that is an automatic array of the callback (or of a helper it calls)"""
+        import re
+        m = re.fullmatch(r"([A-Za-z_]\w*)(@\d+)?", str(base))
+        return m is not None and m.group(1) not in tu.vars
     fam = []
     for j in range(12):
         bl = sp["burst"]["lengths"][1 if (j % 4 == 3 and len(sp["burst"]["lengths"]) > 1) else 0]
@@ -1835,10 +1856,16 @@ def r6_burst_storage(L, repo, spec, tier, tu):
         fam.append(d)
     bad, delivered, reent = [], 0, 0
     for j, d in enumerate(fam):
-        plain, _ = run(j, d, False)
+        plain, _, _ = run(j, d, False)
         if plain is not None:
             delivered += 1
-        mod, re_ = run(j, d, True)
+        mod, re_, failed = run(j, d, True)
+        if failed and mod is not None and not (_isptr(mod[2]) and callback_local(mod[2][1])):
+            x, g, err = failed[0]
+            raise AnalysisError("trx_data_rx_cb: %s() is reached from the call of %s() made before the burst indication is delivered, the indication's `burst` points into `%s`, and %s() cannot be evaluated there (%s)" % (
+                g, x, _mem_name(mod[2][1]) if _isptr(mod[2]) else "?", g, err))
+        if failed:
+            stat["skipped"].update(g for _, g, _ in failed)
         if not re_:
             continue
         reent += 1
